@@ -18,8 +18,8 @@ static Mat unitary(int d, int which) {
 }
 
 struct Family { const char* name; bool normal; double maxnorm; };
-static const Family FAM[] = {{"anti-hermitian", true, 1e3}, {"complex-diagonal", true, 50}, {"nilpotent", false, 50}, {"dense-nonnormal", false, 50}, {"normal-bounded-real", true, 1e3}, {"rank-one", false, 50}, {"block-2+rest", false, 50}};
-static const int NFAM = 7;
+static const Family FAM[] = {{"anti-hermitian", true, 1e3}, {"complex-diagonal", true, 50}, {"nilpotent", false, 50}, {"dense-nonnormal", false, 50}, {"normal-bounded-real", true, 1e3}, {"rank-one", false, 50}, {"block-2+rest", false, 50}, {"strictly-lower-triangular", false, 50}, {"lower-triangular", false, 50}, {"single-offdiagonal-entry", false, 50}};
+static const int NFAM = 10;
 
 static Mat shape(int f, int n, int w) {
   Mat m(n);
@@ -30,6 +30,9 @@ static Mat shape(int f, int n, int w) {
     case 3: for (int i = 0; i < n; i++) for (int j = 0; j < n; j++) m(i, j) = cd(std::sin(1.0 + 2.3 * i + 0.9 * j + w), std::cos(0.3 + 1.1 * i - 1.9 * j + 0.7 * w)) * (1.0 + 0.2 * ((i + 2 * j) % 3)); break;
     case 4: { Mat W = unitary(n, w), D(n); for (int i = 0; i < n; i++) D(i, i) = cd(-0.02 * i - 0.001, (i % 2 ? 1.0 : -0.7) * (1 + 0.37 * i)); m = W * D * ref::dagger(W); } break;
     case 5: for (int i = 0; i < n; i++) for (int j = 0; j < n; j++) m(i, j) = cd(std::cos(0.9 * i + w), std::sin(1.3 * i)) * std::conj(cd(std::sin(0.7 * j + 1 + w), std::cos(2.1 * j))); break;
+    case 7: for (int i = 0; i < n; i++) for (int j = 0; j < i; j++) m(i, j) = cd(1.0 + 0.3 * i - 0.2 * j + 0.1 * w, 0.5 * (i + 1) - 0.4 * j); break;
+    case 8: for (int i = 0; i < n; i++) for (int j = 0; j <= i; j++) m(i, j) = cd(std::cos(1.0 + 0.3 * i - 0.2 * j + 0.1 * w), (i == j) ? 0.3 * i - 0.4 : 0.5 * (i + 1) - 0.4 * j); break;
+    case 9: for (int i = 0; i < n; i++) m(i, i) = cd(0.2 * i - 0.3, 0.1 * i); m(n - 1, 0) = cd(0.9, -0.4 - 0.1 * w); break;   // one entry in the lower-left corner
     case 6: { m(0, 0) = cd(0.3, 1); m(0, 1) = cd(1, -0.5); m(1, 0) = cd(-0.7, 0.2); m(1, 1) = cd(-0.3, -1); for (int i = 2; i < n; i++) for (int j = 2; j < n; j++) m(i, j) = cd(std::sin(1.0 + 2.3 * i + 0.9 * j + w), (i == j) ? 0.4 : std::cos(i - 1.9 * j)); } break;
   }
   return m;
